@@ -129,7 +129,7 @@ func VerifC02Directive(args []string) {
 	vfAssert(ok, "harness: skeleton readable by the reference reader")
 	w := newWorld(tree, "")
 	confD := w.config("keys", "1111")
-	for _, o := range optimizations {
+	for _, o := range vfOptimizations {
 		delete(confD.CompileOptions, o)
 	}
 	before := len(confD.CompileOptions)
@@ -138,7 +138,7 @@ func VerifC02Directive(args []string) {
 	vfAssert(len(confD.CompileOptions) == before, "directives must not leak into the caller's config")
 
 	confP := w.config("keys", "1111")
-	for i, o := range optimizations {
+	for i, o := range vfOptimizations {
 		switch want[i] {
 		case '0':
 			confP.CompileOptions[o] = false
